@@ -22,6 +22,8 @@ PRINTERS = ("print", "logging.info", "logging.debug", "logging.warning", "warnin
 BUILTIN_PURE = {"len", "sum", "str", "int", "float", "round", "abs", "min", "max", "divmod", "range", "tuple", "list", "sorted",
                 "np.max", "np.abs", "np.sqrt", "np.sum", "np.linalg.norm", "np.prod", "np.arange", "time.time", "time.perf_counter"}
 
+NP_WRITING = {"np.put", "np.copyto", "np.place", "np.putmask", "np.fill_diagonal", "np.put_along_axis", "np.seterr", "np.random.seed"}
+
 DRIVERS = [("pyttb/cp_als.py", "cp_als"), ("pyttb/tucker_als.py", "tucker_als"), ("pyttb/hosvd.py", "hosvd"),
            ("pyttb/cp_apr.py", "tt_cp_apr_mu"), ("pyttb/cp_apr.py", "tt_cp_apr_pdnr"), ("pyttb/cp_apr.py", "tt_cp_apr_pqnr"),
            ("pyttb/gcp_opt.py", "gcp_opt"), ("pyttb/gcp/optimizers.py", "StochasticSolver.solve"), ("pyttb/gcp/optimizers.py", "LBFGSB.solve")]
@@ -63,8 +65,13 @@ def _calls(node, skip_printers=True):
             d = dotted(n.func) or ("<expr>." + n.func.attr if isinstance(n.func, ast.Attribute) else "<expr>")
             if skip_printers and d in PRINTERS:
                 continue
-            if d not in BUILTIN_PURE:
-                out.append(d)
+            if d in BUILTIN_PURE:
+                continue
+            # numpy's module-level functions return new arrays: pure unless they write through an argument (`out=`, the put family) or
+            # draw from the global random stream
+            if d.startswith("np.") and not d.startswith("np.random.") and d not in NP_WRITING and not any(k.arg == "out" for k in n.keywords):
+                continue
+            out.append(d)
     return out
 
 
